@@ -15,20 +15,20 @@ class _Job:
 
 
 def _mk_token(d: Path, total: int):
-    from experimaestro.tokens import CounterToken
-    t = object.__new__(CounterToken)          # no watcher threads: __init__ is not under test here
-    t.path = d
-    t.infopath = d / "token.info"
-    t.cache = {}
-    t.lock = threading.Lock()
-    import fasteners
-    t.ipc_lock = fasteners.InterProcessLock(d / "token.lock")
-    t.name = "tok"
-    t.total = total
-    t.available = total
-    t.infopath.write_text(str(total))
-    from experimaestro.scheduler.dependencies import Dependents
-    t.dependents = Dependents()
+    """a real CounterToken built by its own __init__ (so that every attribute the class relies on exists), with the directory
+    watcher switched off: no watcher threads in the harness"""
+    import experimaestro.tokens as T
+
+    class _NoWatch:
+        def fswatch(self, *a, **k):
+            return None
+
+    orig = T.ipcom
+    T.ipcom = lambda: _NoWatch()
+    try:
+        t = T.CounterToken("tok", d, total)
+    finally:
+        T.ipcom = orig
     return t
 
 
